@@ -620,7 +620,10 @@ impl Ctx {
             },
             "assumptions": self.assumptions,
             "wall_s": (wall*1000.0).round()/1000.0,
-            "violations": self.viol_total,
+            // violations that are NOT covered by an entry of known_findings.json (these make the run exit 1); hits of
+            // listed findings are under known_finding_hits, the raw number of failing cases under failing_cases_total
+            "violations": fresh.len(),
+            "failing_cases_total": self.viol_total,
             "violation_records": viol_json,
             "known_finding_hits": known_hits.iter().map(|(k,n)| json!({"finding": findings[*k]["id"], "hits": n})).collect::<Vec<_>>(),
             "vacuous_classes_missing": missing,
@@ -634,8 +637,11 @@ impl Ctx {
         }
         println!(
             "[{}] tier={:?} states={} transitions={} validated={} nontrivial={} exhaustive={} wall={:.1}s violations={}",
-            self.property, self.tier, self.states, self.transitions, self.validated, self.nontrivial, exhaustive, wall, self.viol_total
+            self.property, self.tier, self.states, self.transitions, self.validated, self.nontrivial, exhaustive, wall, fresh.len()
         );
+        if self.viol_total as usize != fresh.len() {
+            println!("    ({} failing cases in total, {} of the recorded ones not covered by a listed known finding)", self.viol_total, fresh.len());
+        }
         for s in &self.sweeps {
             println!("    space {:<44} cases={:<12} complete={} {:.2}s", s.name, s.cases, s.complete, s.wall_s);
         }
